@@ -39,7 +39,10 @@ pub fn run_c14(ctx: &Ctx) {
     let roots = ["m/", "m", "", "M/", "/", "0/", "\u{ff4d}/", "\u{ff4d}\u{ff0f}"]; let toks = ["\u{b2}", "\u{2082}", "\u{2460}", "\u{ff14}\u{ff14}'", "4\u{b2}", "0\u{ff07}", "\u{663}", "0", "1", "44'", "2147483647", "2147483647'", "2147483648", "2147483648'", "4294967295", "4294967296'", "18446744073709551616", "", "-1", "1.5", "x", "0''", "'", "0x10", "+1", "01", "0h"];
     let mut texts: Vec<String> = Vec::new();
     for r in roots { texts.push(r.to_string()); for a in toks { texts.push(format!("{r}{a}")); for b in ["0", "2147483648", "1'", ""] { texts.push(format!("{r}{a}/{b}")); } } }
-    ctx.sweep("cli-hd-path", "`address --hd-path`: 8 root spellings x 27 tokens (incl. superscript, subscript, circled, full-width and Arabic-Indic digits) x 5 continuations; printed address = reference CKD account, or refused", texts.len() as u64, |i| {
+    // deep lines: depth 6..=12, 17, 33, 65 with a valid or a defective token at the last and at the middle position
+    for d in (6..=12usize).chain([17, 33, 65]) { for p in [d / 2, d - 1] { for sub in ["7", "7'", "2147483648", "", "x", "-1", "1.5"] {
+        let comps: Vec<String> = (0..d).map(|j| if j == p { sub.to_string() } else { format!("{}{}", j + 1, if j % 2 == 1 { "'" } else { "" }) }).collect(); texts.push(format!("m/{}", comps.join("/"))); } } }
+    ctx.sweep("cli-hd-path", "`address --hd-path`: deep lines (depth 6..12, 17, 33, 65, one valid or defective token substituted in the middle or at the end) and 8 root spellings x 27 tokens (incl. superscript, subscript, circled, full-width and Arabic-Indic digits) x 5 continuations; printed address = reference CKD account, or refused", texts.len() as u64, |i| {
         let t = &texts[i as usize]; let class = classify_path(t);
         let want = match class.clone() { Class::Accept(p) if !p.is_empty() => Class::Accept(address_text(&curve, &key_of(&curve, GANACHE, "", &p))), Class::Unc(p) | Class::Accept(p) => if p.is_empty() { Class::Unc(String::new()) } else { Class::Unc(address_text(&curve, &key_of(&curve, GANACHE, "", &p))) }, Class::Reject => Class::Reject };
         let want = if let Class::Unc(s) = &want { if s.is_empty() { // bare "m": accepted or not, nothing to compare
@@ -48,7 +51,7 @@ pub fn run_c14(ctx: &Ctx) {
     });
     let idx = ["0", "1", "2", "1000", "2147483646", "2147483647", "2147483648", "4294967295", "4294967296", "18446744073709551615", "\u{ff11}", "\u{b2}", "\u{661}", "+1", "1 "];
     ctx.sweep("cli-account-index", "`address --account-index i` (flag and environment) for i at 0, 1, 2, 1000, 2^31-2, 2^31-1 (account m/44'/60'/0'/0/i) and 2^31, 2^32-1, 2^32, 2^64-1 (refused)", (idx.len() * 2) as u64, |i| {
-        let t = idx[i as usize / 2]; let v: u128 = match t.parse() { Ok(v) => v, Err(_) => { // not a decimal number in ASCII digits: refused, or (exotic but unambiguous ASCII spellings) the account of that number
+        let t = idx[i as usize / 2]; let canonical = !t.is_empty() && t.bytes().all(|b| b.is_ascii_digit()) && (t == "0" || !t.starts_with('0')); let v: u128 = match t.parse::<u128>().ok().filter(|_| canonical) { Some(v) => v, None => { // not a decimal number in ASCII digits: refused, or (exotic but unambiguous ASCII spellings) the account of that number
             let cmd = Cmd::new(&["address", "--mnemonic", GANACHE, "--account-index", t]); let want = if t.is_ascii() { Class::Unc(address_text(&curve, &key_of(&curve, GANACHE, "", &default_path(1)))) } else { Class::Reject };
             verdict(ctx, "C14", "cli-account-index", i, "index-not-ascii-decimal", &cmd, want); return; } };
         let want = if v < 1 << 31 { Class::Accept(address_text(&curve, &key_of(&curve, GANACHE, "", &default_path(v as u32)))) } else { Class::Reject };
